@@ -216,7 +216,7 @@ def run(replay=None):
     import re as _re
     ok_q, log_q = common.build_driver(**common.DRIVERS["qtdriver"])
     qprogs = []
-    for k in range(60 if quick else 1500):
+    for k in range(60 if quick else 6000):
         p = shape2d(rng, f"q{k}")
         p.q = p.ncmd + 1
         # max_err: the default 1e-8 rarely collapses anything; larger values collapse whatever the topology tests allow
